@@ -70,12 +70,30 @@ fn count_ones(b: &Bitstring) -> TestResults<Score<i64>> {
     b.bits.iter().copied().map(i64::from).collect()
 }
 
+/// Size of a population / genome / collection derived from a data seed. Most are small (0..=small); a
+/// fixed fraction is medium (<= 70), large (<= 300) or huge (<= 1500), so that size-dependent fast paths
+/// (thresholds such as "16 x the tournament size", 64-bit words, chunked loops) are part of the registry.
+/// The class comes from the seed's top byte, so the Miri leg can restrict itself to small/medium sizes.
+fn sz(seed: u64, small: usize) -> usize {
+    let class = seed >> 56;
+    let r = fnv1a(&seed.to_le_bytes());
+    let span = |lo: usize, hi: usize| lo + (r % (hi - lo + 1) as u64) as usize;
+    match class {
+        0..=165 => span(0, small),
+        166..=216 => span(small + 1, 70.max(small + 2)),
+        217..=247 => span(71, 300),
+        _ => span(301, 1500),
+    }
+}
+
 fn make_pop(seed: u64) -> Pop {
     let mut g = Xo::from_seed(seed);
-    let n = g.urange(0, 7);
+    let n = sz(seed, 7);
+    // few bits => many tied totals; some populations have wider genomes
+    let width = if g.chance(1, 4) { g.urange(5, 12) } else { g.urange(1, 4) };
     (0..n)
         .map(|_| {
-            let b = Bitstring { bits: (0..4).map(|_| g.coin()).collect() };
+            let b = Bitstring { bits: (0..width).map(|_| g.coin()).collect() };
             let r = count_ones(&b);
             EcIndividual::new(b, r)
         })
@@ -167,7 +185,7 @@ fn registry() -> Vec<RegOp> {
     // mutators
     let bits = |seed: u64| -> Vec<bool> {
         let mut g = Xo::from_seed(seed);
-        let n = g.urange(0, 12);
+        let n = sz(seed, 12);
         (0..n).map(|_| g.coin()).collect()
     };
     v.push(RegOp { name: "WithRate(0.3)/Vec<bool>", f: Box::new(move |s, rng| show(WithRate::new(0.3).mutate(bits(s), rng))) });
@@ -188,7 +206,7 @@ fn registry() -> Vec<RegOp> {
         v.push(RegOp {
             name: "Umad/Vector<u32> with OneOfCloning generator",
             f: Box::new(move |s, rng| {
-                let n = (s % 10) as u32;
+                let n = sz(s, 9) as u32;
                 let parent: Vector<u32> = (0..n).collect();
                 show(umad.mutate(parent, rng).map(|c| c.genes))
             }),
@@ -200,7 +218,7 @@ fn registry() -> Vec<RegOp> {
         v.push(RegOp {
             name: "Umad/Plushy with GeneGenerator",
             f: Box::new(move |s, rng| {
-                let n = (s % 8) as i64;
+                let n = sz(s, 7) as i64;
                 let parent = Plushy::new((0..n).map(|i| {
                     if i % 3 == 2 {
                         PushGene::Close
@@ -214,7 +232,7 @@ fn registry() -> Vec<RegOp> {
     }
     // recombinators
     let parents = |seed: u64| -> (Vec<u32>, Vec<u32>) {
-        let n = (seed % 9) as u32;
+        let n = sz(seed, 8) as u32;
         let m = if seed % 11 == 0 { n + 1 } else { n };
         ((0..n).collect(), (100..100 + m).collect())
     };
@@ -225,14 +243,14 @@ fn registry() -> Vec<RegOp> {
     v.push(RegOp {
         name: "TwoPointXo/[Bitstring;2]",
         f: Box::new(move |s, rng| {
-            let n = (s % 9) as usize;
+            let n = sz(s, 8);
             show(TwoPointXo.recombine([Bitstring { bits: vec![false; n] }, Bitstring { bits: vec![true; n] }], rng))
         }),
     });
     v.push(RegOp {
         name: "UniformXo/(Bitstring,Bitstring)",
         f: Box::new(move |s, rng| {
-            let n = (s % 9) as usize;
+            let n = sz(s, 8);
             show(UniformXo.recombine((Bitstring { bits: vec![false; n] }, Bitstring { bits: vec![true; n] }), rng))
         }),
     });
@@ -240,19 +258,19 @@ fn registry() -> Vec<RegOp> {
     v.push(RegOp {
         name: "Generator<StandardUniform>/Vec<bool>",
         f: Box::new(|s, rng| {
-            let x: Vec<bool> = Generator::new(StandardUniform, (s % 20) as usize).sample(rng);
+            let x: Vec<bool> = Generator::new(StandardUniform, sz(s, 19)).sample(rng);
             format!("{x:?}")
         }),
     });
-    v.push(RegOp { name: "Bitstring::random", f: Box::new(|s, rng| format!("{:?}", Bitstring::random((s % 20) as usize, rng))) });
+    v.push(RegOp { name: "Bitstring::random", f: Box::new(|s, rng| format!("{:?}", Bitstring::random(sz(s, 19), rng))) });
     v.push(RegOp {
         name: "Bitstring::random_with_probability",
-        f: Box::new(|s, rng| format!("{:?}", Bitstring::random_with_probability((s % 20) as usize, 0.2, rng))),
+        f: Box::new(|s, rng| format!("{:?}", Bitstring::random_with_probability(sz(s, 19), 0.2, rng))),
     });
     v.push(RegOp {
         name: "Generator<BoolGenerator>/Bitstring",
         f: Box::new(|s, rng| {
-            let x: Bitstring = BoolGenerator::new(0.7).into_collection_generator((s % 20) as usize).sample(rng);
+            let x: Bitstring = BoolGenerator::new(0.7).into_collection_generator(sz(s, 19)).sample(rng);
             format!("{x:?}")
         }),
     });
@@ -288,7 +306,7 @@ fn registry() -> Vec<RegOp> {
         v.push(RegOp {
             name: "Plushy generation (collection generator)",
             f: Box::new(move |s, rng| {
-                let p: Plushy = gg.to_collection_generator((s % 12) as usize).sample(rng);
+                let p: Plushy = gg.to_collection_generator(sz(s, 11)).sample(rng);
                 format!("{p:?}")
             }),
         });
@@ -299,7 +317,7 @@ fn registry() -> Vec<RegOp> {
             let pop: Pop = StandardUniform
                 .to_collection_generator(5)
                 .with_scorer(FnScorer(|b: &Bitstring| count_ones(b)))
-                .into_collection_generator((s % 6) as usize)
+                .into_collection_generator(sz(s, 5).min(200))
                 .sample(rng);
             format!("{pop:?}")
         }),
@@ -396,9 +414,19 @@ fn call(op: &RegOp, data: u64, rng: &mut SimRng) -> (String, (u64, u64, u64)) {
     (r, rng.state_fingerprint())
 }
 
-fn proc_items(reg_len: usize, chunk_seed: u64, count: usize) -> Vec<(usize, u64, u64)> {
+/// `small_only`: restrict the data seeds to the small / medium size classes (used by the Miri leg, where
+/// every operation costs ~100x).
+fn proc_items(reg_len: usize, chunk_seed: u64, count: usize, small_only: bool) -> Vec<(usize, u64, u64)> {
     let mut g = Xo::from_seed(chunk_seed);
-    (0..count).map(|_| (g.usize_below(reg_len), g.next_u64(), g.next_u64())).collect()
+    (0..count)
+        .map(|_| {
+            let (op, mut data, seed) = (g.usize_below(reg_len), g.next_u64(), g.next_u64());
+            if small_only {
+                data = (data & 0x00ff_ffff_ffff_ffff) | (((data >> 56) % 217) << 56);
+            }
+            (op, data, seed)
+        })
+        .collect()
 }
 
 fn proc_digest(reg: &[RegOp], item: (usize, u64, u64)) -> u64 {
@@ -517,7 +545,7 @@ impl C16 {
     }
 
     fn exec_proc(&self, chunk_seed: u64, count: usize, obs: &mut Obs) -> Vec<Violation> {
-        let items = proc_items(self.reg.len(), chunk_seed, count);
+        let items = proc_items(self.reg.len(), chunk_seed, count, false);
         let mine: Vec<u64> = items.iter().map(|it| catch(|| proc_digest(&self.reg, *it)).unwrap_or(0)).collect();
         let out = std::env::current_exe().ok().and_then(|exe| {
             std::process::Command::new(exe).arg("--digest").arg(chunk_seed.to_string()).arg(count.to_string()).output().ok()
@@ -652,8 +680,9 @@ impl Check for C16 {
         }
         let seed: u64 = args.get(1)?.parse().ok()?;
         let count: usize = args.get(2)?.parse().ok()?;
+        let small_only = args.get(3).map(String::as_str) == Some("small");
         simcore::driver::install_quiet_panic_hook();
-        for it in proc_items(self.reg.len(), seed, count) {
+        for it in proc_items(self.reg.len(), seed, count, small_only) {
             let d = catch(|| proc_digest(&self.reg, it)).unwrap_or(0);
             println!("D {d:016x}");
         }
